@@ -666,6 +666,10 @@ func (r *Reconciler) reconcileApply(ctx context.Context, proposal *configapi.Pro
 		setResponse, err := conn.Set(ctx, setRequest)
 		if err != nil {
 			code := status.Code(err)
+			if _, ok := err.(*errors.TypedError); ok {
+				// the southbound client returns typed errors (errors.FromGRPC), which carry no gRPC status
+				code = errors.Status(err).Code()
+			}
 			switch code {
 			case codes.Unavailable, codes.Canceled, codes.DeadlineExceeded:
 				log.Errorf("Failed sending SetRequest %+v", setRequest, err)
